@@ -650,6 +650,9 @@ class SymX:
             return C(len(t[1]) > 0)
         if t[0] == "call" and t[1] in ("isinstance",):
             return t
+        if t[0] == "boolval":
+            parts = [self.truth(x) for x in t[2]]
+            return mk_and(*parts) if t[1] == "and" else mk_or(*parts)
         return ("truthy", t)
 
     def binop(self, op, a, b):
@@ -921,8 +924,8 @@ def strip_filter(loop, updates):
         conds = set()
         for v, u in updates.items():
             acc = ("acc", loop.id, v)
-            if u == acc:
-                continue
+            if u == acc or not mentions_acc(u, loop.id):
+                continue    # unchanged, or a per-iteration temporary that does not accumulate
             if u[0] == "ite" and u[3] == acc and not mentions_acc(u[1], loop.id):
                 conds.add(u[1])
             elif u[0] == "ite" and u[2] == acc and not mentions_acc(u[1], loop.id):
@@ -935,7 +938,7 @@ def strip_filter(loop, updates):
         new = {}
         for v, u in updates.items():
             acc = ("acc", loop.id, v)
-            if u == acc:
+            if u == acc or not mentions_acc(u, loop.id):
                 new[v] = u
             elif u[3] == acc and u[1] == F:
                 new[v] = u[2]
@@ -974,16 +977,23 @@ def classify(loop):
         if u[0] == "cat" and u[1] == acc and u[2][0] == "list" and len(u[2][1]) == 1 and not mentions_acc(u[2], loop.id):
             out[v] = Fold("COLLECT", init=init, term=u[2][1][0])
             continue
-        # MAX / MIN
+        # MAX / MIN, including the None-seeded idiom `if best is None or e < best: best = e`
+        none_seeded = False
+        if u[0] == "ite" and u[3] == acc and u[1][0] == "or" and len(u[1][1]) == 2 and init == C(None):
+            isnone = [x for x in u[1][1] if x in (("cmp", "is", acc, C(None)), ("cmp", "==", acc, C(None)), ("cmp", "==", C(None), acc))]
+            others = [x for x in u[1][1] if x not in isnone]
+            if len(isnone) == 1 and len(others) == 1 and others[0][0] == "cmp" and others[0][1] in ("<", "<="):
+                u = ("ite", others[0], u[2], u[3])
+                none_seeded = True
         if u[0] == "ite" and u[3] == acc and u[1][0] == "cmp" and u[1][1] in ("<", "<="):
             c = u[1]
             e = u[2]
             if c[2] == acc and c[3] == e and not mentions_acc(e, loop.id):
-                out[v] = Fold("EXT", sense="max", strict=(c[1] == "<"), init=init, term=e, cond=c)
+                out[v] = Fold("EXT", sense="max", strict=(c[1] == "<"), init=init, term=e, cond=c, none_seeded=none_seeded)
                 ext[c] = v
                 continue
             if c[3] == acc and c[2] == e and not mentions_acc(e, loop.id):
-                out[v] = Fold("EXT", sense="min", strict=(c[1] == "<"), init=init, term=e, cond=c)
+                out[v] = Fold("EXT", sense="min", strict=(c[1] == "<"), init=init, term=e, cond=c, none_seeded=none_seeded)
                 ext[c] = v
                 continue
         out[v] = None
@@ -1009,6 +1019,11 @@ def classify(loop):
                 continue
             if rest == acc and not mentions_acc(label, loop.id):
                 out[v] = Fold("ARGSET", of=bestv, init=init, label=label, ties=False)
+                continue
+            if rest[0] == "ite" and rest[3] == acc and rest[2] == simp(("cat", acc, ("list", (label,)))) \
+                    and rest[1][0] == "cmp" and rest[1][1] == "==" and mentions_acc(rest[1], loop.id):
+                # reset and tie are judged on different keys
+                out[v] = Fold("ARGSET", of=bestv, init=init, label=label, ties="inconsistent", tie_cond=rest[1])
                 continue
         out[v] = Fold("OTHER", init=init, term=u)
     return out
